@@ -440,8 +440,24 @@ lookup(const std::string& id, const std::string& variant) {
     return p;
 }
 
+#ifdef VERIF_FUZZ
+extern "C" int LLVMFuzzerTestOneInput(const std::uint8_t* data,
+                                      std::size_t size) {
+    static std::vector<vf::Property> table = {*lookup("C19", "names"), *lookup("C19", "types")};
+    static bool once = [] {
+        std::atexit([] {
+            fflush(nullptr);
+            _exit(0);
+        });
+        return true;
+    }();
+    (void)once;
+    return vf::fuzz_one(data, size, table, "e6");
+}
+#else
 int main(int argc, char** argv) {
     int rc = vf::worker_main(argc, argv, &lookup);
     fflush(nullptr);
     _exit(rc);
 }
+#endif
